@@ -89,6 +89,8 @@ class Printer:
         if k == "i":
             if n[1] in (0, 1) and r.random() < 0.12:
                 return "true" if n[1] == 1 else "false"          # the two keyword spellings of 1 and 0
+            if n[1] >= 0 and r.random() < 0.06:
+                return "0" * r.randint(1, 2) + str(n[1])          # number <- [0-9]+ : leading zeros are legal, the value is decimal
             return str(n[1])
         if k == "f":
             t = repr(n[1])
